@@ -33,6 +33,9 @@
 (*                   was reported as success                               *)
 (*   "NoThreadLock"  nothing kept the goroutine on one thread between      *)
 (*                   prctl(PR_SET_NO_NEW_PRIVS) and seccomp()              *)
+(*   "PrctlFallback" (never in the code; a seeded change) on ENOSYS from   *)
+(*                   seccomp(2) fall back to prctl(PR_SET_SECCOMP), which  *)
+(*                   takes no flags and covers the calling thread only     *)
 (*   "SupportedFlags0" (never in the code; self-test only) Supported()     *)
 (*                   probing with flags = 0 would enter strict mode        *)
 (***************************************************************************)
@@ -44,7 +47,9 @@ CONSTANTS Threads, MaxLoads, Dev,
                         \* where a replay can stage them (idle, schedule point)
           Creators,     \* threads that may create threads (the replay harness
                         \* can only stage creation by unmanaged runtime threads)
-          Callers       \* threads library calls are made on
+          Callers,      \* threads library calls are made on
+          AllowBlock    \* TRUE: the environment may put an enclosing filter on a thread that answers
+                        \* seccomp(2) itself with ENOSYS (a container profile); it is filter id 0
 
 VARIABLES threads, chain, nnp, strict, priv, pc, kind, m, locked, req, res, fid, loads, kret, synced
 vars == <<threads, chain, nnp, strict, priv, pc, kind, m, locked, req, res, fid, loads, kret, synced>>
@@ -77,6 +82,15 @@ ThreadCreate(p, n) ==
   /\ strict' = [strict EXCEPT ![n] = strict[p]]
   /\ UNCHANGED <<priv, pc, kind, m, locked, req, res, fid, loads, kret, synced>>
 
+\* An enclosing filter (id 0) that answers the seccomp(2) system call with ERRNO(ENOSYS) is installed on thread t
+\* (by whoever started the program, here with prctl(PR_SET_SECCOMP) after setting no_new_privs).
+Blocked(t) == \E i \in 1..Len(chain[t]) : chain[t][i] = 0
+BlockSeccomp(t) ==
+  /\ AllowBlock /\ pc = "idle" /\ t \in threads /\ ~Blocked(t) /\ ~strict[t]
+  /\ chain' = [chain EXCEPT ![t] = Append(@, 0)]
+  /\ nnp' = [nnp EXCEPT ![t] = TRUE]
+  /\ UNCHANGED <<threads, strict, priv, pc, kind, m, locked, req, res, fid, loads, kret, synced>>
+
 \* The Go scheduler resumes the calling goroutine on another thread.  The
 \* attempt is part of the environment and always possible at the schedule
 \* point; it has an effect only if the goroutine is not wired to its thread.
@@ -98,7 +112,8 @@ AttemptMigrate(t) ==
 (*   caller's chain and propagate no_new_privs.                            *)
 TsyncBlockers(t) == {u \in threads \ {t} : strict[u] \/ ~IsPrefix(chain[u], chain[t])}
 KFilter(t, flags, pol) ==
-  IF "BAD" \in flags THEN [errno |-> "EINVAL", ret |-> 0, attach |-> FALSE]
+  IF Blocked(t) THEN [errno |-> "ENOSYS", ret |-> 0, attach |-> FALSE]     \* the enclosing filter answers at syscall entry
+  ELSE IF "BAD" \in flags THEN [errno |-> "EINVAL", ret |-> 0, attach |-> FALSE]
   ELSE IF pol = "oversize" THEN [errno |-> "EINVAL", ret |-> 0, attach |-> FALSE]
   ELSE IF ~priv /\ ~nnp[t] THEN [errno |-> "EACCES", ret |-> 0, attach |-> FALSE]
   ELSE IF strict[t] THEN [errno |-> "EINVAL", ret |-> 0, attach |-> FALSE]
@@ -107,7 +122,8 @@ KFilter(t, flags, pol) ==
 
 \* seccomp(SECCOMP_SET_MODE_STRICT, flags, NULL): flags must be 0
 KStrict(t, flagword) ==
-  IF flagword # 0 THEN [errno |-> "EINVAL", enter |-> FALSE]
+  IF Blocked(t) THEN [errno |-> "ENOSYS", enter |-> FALSE]
+  ELSE IF flagword # 0 THEN [errno |-> "EINVAL", enter |-> FALSE]
   ELSE IF chain[t] # <<>> THEN [errno |-> "EINVAL", enter |-> FALSE]
   ELSE [errno |-> "", enter |-> TRUE]
 
@@ -141,14 +157,18 @@ LF_Seccomp ==
   /\ pc = "seccomp" /\ kind = "load"
   /\ LET k == KFilter(m, req.flags, req.pol) IN
      /\ kret' = [errno |-> k.errno, ret |-> k.ret, att |-> k.attach, nnpAt |-> nnp[m], flags |-> req.flags, t |-> m]
-     /\ IF k.attach
+     /\ IF k.errno = "ENOSYS" /\ "PrctlFallback" \in Dev
+        THEN \* prctl(PR_SET_SECCOMP, SECCOMP_MODE_FILTER): no flags, the calling thread only
+             chain' = [chain EXCEPT ![m] = Append(@, fid)] /\ UNCHANGED nnp
+        ELSE IF k.attach
         THEN LET nc == Append(chain[m], fid) IN
              IF "TSYNC" \in req.flags
              THEN /\ chain' = [t \in Threads |-> IF t \in threads THEN nc ELSE chain[t]]
                   /\ nnp' = [t \in Threads |-> IF t \in threads THEN nnp[t] \/ nnp[m] ELSE nnp[t]]
              ELSE /\ chain' = [chain EXCEPT ![m] = nc] /\ UNCHANGED nnp
         ELSE UNCHANGED <<chain, nnp>>
-     /\ res' = IF k.errno # "" THEN "err"
+     /\ res' = IF k.errno = "ENOSYS" /\ "PrctlFallback" \in Dev THEN "nil"
+               ELSE IF k.errno # "" THEN "err"
                ELSE IF "R1Ignored" \in Dev THEN "nil"
                ELSE IF k.ret # 0 THEN "err" ELSE "nil"
   /\ pc' = "ret"
@@ -174,6 +194,7 @@ LibNext ==
   \/ \E t \in threads : Call(t, "supported", NoReq) \/ Call(t, "setnnp", NoReq)
   \/ LF_Assemble \/ LF_Prctl \/ LF_Seccomp \/ SupportedStep \/ Return
 EnvNext ==
+  \/ \E t \in threads : BlockSeccomp(t)
   \/ \E p \in threads, n \in Threads : ThreadCreate(p, n)
   \/ \E t \in threads : AttemptMigrate(t)
 Next == LibNext \/ EnvNext
@@ -200,7 +221,7 @@ EarlyFailurePure ==
   [][(LibStep /\ kind = "load" /\ req.pol = "invalid" /\ pc # "idle") => UNCHANGED kvars]_vars
 SupportedPure ==
   [][(LibStep /\ kind = "supported" /\ pc # "idle") => UNCHANGED kvars]_vars
-SupportedTrue == (pc = "ret" /\ kind = "supported") => res = "true"
+SupportedTrue == (pc = "ret" /\ kind = "supported") => res = (IF Blocked(m) THEN "false" ELSE "true")
 
 \* C10
 SyncedCoverAll == \A f \in synced : \A t \in threads : InForce(t, f)
@@ -211,7 +232,7 @@ NoTsyncLeavesOthers ==
 
 \* C11
 NNPRequestedLoads ==
-  (AtRet /\ req.nnp /\ req.pol = "valid" /\ "BAD" \notin req.flags /\ kret.ret = 0 /\ ~strict[kret.t]) => res = "nil"
+  (AtRet /\ req.nnp /\ req.pol = "valid" /\ "BAD" \notin req.flags /\ kret.ret = 0 /\ ~strict[kret.t] /\ ~Blocked(kret.t)) => res = "nil"
 NNPBeforeInstallSameThread ==
   (AtRet /\ req.nnp /\ kret.t # "none") => kret.nnpAt
 NotRequestedUntouched ==
